@@ -10,7 +10,7 @@ from .c08 import ws_variant
 USE_STEPS = False
 NBATCH = {'quick': 16, 'thorough': 64}
 BUDGET_S = {'quick': 90, 'thorough': 180}
-PER_BATCH = {'quick': 30, 'thorough': 600}
+PER_BATCH = {'quick': 80, 'thorough': 1500}
 FLOORS = {
     'quick': {'distinct_nontrivial': 2500, 'variant:save/load': 3000, 'variant:cache': 3000, 'variant:standalone': 3000, 'cache-served-confirmed': 100,
               'standalone-modules-generated': 100, 'op:parse': 4000, 'op:interactive': 1500, 'op:scan': 1000, 'feature:rejected': 2000,
